@@ -71,7 +71,7 @@ def build_model():
     if os.path.exists(drv) and os.path.getmtime(drv) >= stamp:
         return
     sh("coqc -Q ../coq MowCli ../coq/Extract.v", cwd=OCAML)
-    sh("ocamlfind ocamlopt -O3 -w -a model.mli model.ml driver.ml -o modeldrv", cwd=OCAML)
+    sh("ocamlfind ocamlopt -package unix -linkpkg -O3 -w -a model.mli model.ml driver.ml -o modeldrv", cwd=OCAML)
 
 
 def build_harness(race=False):
@@ -241,6 +241,10 @@ def _run_harness_shard(binary, cases, timeout_ms):
                 got += 1
         if got >= len(todo):
             break
+        if got > 0 and out[todo[got - 1]["id"]].get("outcome") == "timeout":
+            # the watchdog reported that case and ended the process: go on with the next one
+            todo = todo[got:]
+            continue
         # case todo[got] killed the process without a line
         culprit = todo[got]
         tail = p.stderr[-600:]
@@ -265,7 +269,7 @@ def _run_model_shard(lines, ids):
     while todo:
         p = subprocess.run([os.path.join(OCAML, "modeldrv")], input="".join(l for _, l in todo),
                            stdout=subprocess.PIPE, stderr=subprocess.PIPE, text=True,
-                           env=dict(os.environ, OCAMLRUNPARAM="l=4G"))
+                           env=dict(os.environ, OCAMLRUNPARAM="l=4G", VERIF_MODEL_TIMEOUT_S=os.environ.get("VERIF_MODEL_TIMEOUT_S", "5")))
         got = 0
         for line in p.stdout.splitlines():
             if "\t" not in line:
